@@ -11,7 +11,23 @@ from tyuniv import *  # noqa
 from values import gen_val, show
 
 VEC_U8 = ('seq', 'vec', ('prim', 'u8'))
-USER_KINDS = (1, 2, 3, 4, 5)
+# failure kinds a schedule can inject (harness/src/errs.rs user_kind): 1..5 PermissionDenied ConnectionReset BrokenPipe TimedOut
+# InvalidInput, 6..13 NotFound ConnectionRefused ConnectionAborted NotConnected AddrInUse AddrNotAvailable AlreadyExists
+# WouldBlock - every ErrorKind that both std::io and the no_std shim have and that the crate gives no meaning of its own
+USER_KINDS = tuple(range(1, 14))
+
+
+def fail_item(k, n):
+    """schedule entry for a hard failure of kind k: with the message "user:n", or built from the kind alone (n None)"""
+    return 'f%s:%s' % (k, '-' if n is None else n)
+
+
+def fail_msg(n):
+    return 'Simple' if n is None else 'User:%d' % n
+
+
+def rand_msg(rng):
+    return None if rng.random() < 0.25 else rng.randrange(100)
 
 
 def driver_big():
